@@ -100,6 +100,17 @@ CHECKS["C19"] = (
     "in-process runs of the real parser/actions/main() with optimize and parse_files replaced by spies check flags, IN, OUT "
     "and stdout; end-to-end subprocess runs compare stdout byte for byte with the in-process optimize() result", "8/C19")
 
+CHECKS["C07"] = (
+    "bounded-exhaustive exploration of name-inventing trigger programs x vocabulary / variable / layout / declaration "
+    "attacks (attack names derived by running the trigger), semantic oracle (clingo) plus structural interface oracle",
+    "for every attacked program and trait configuration: answer sets on the interface are unchanged for all instances "
+    "(a captured name or variable changes meaning), inputs get no new defining rule, invented heads do not coincide with "
+    "declared predicates, non-rule statements are printed verbatim in source order", "8/C07")
+CHECKS["C20"] = (SEM + "; reference model of domain/min/max/next in Python evaluated on every answer set of the result",
+                 "for every program on which symmetry/minmax_chains/sum_chains emit domain and order predicates, every "
+                 "instance and every answer set of the result: p(t) => dom_p(t), domain/order predicates identical across "
+                 "answer sets, min/max/next = extremes / covering relation of the sorted domain values per group", "8/C20")
+
 ALL = [f"C{i:02d}" for i in range(1, 21)]
 
 
